@@ -411,7 +411,8 @@ scanTokenCases(void)
 {
 	unsigned char	c, cn;
 
-	if (scIsSysCmd)			return scanSysCommand();
+	/* (at the end of the input there is no line left to hold a command) */
+	if (scIsSysCmd && scLine)	return scanSysCommand();
 
 	scSkipSpace();
 	c = scPeekChar();
